@@ -379,3 +379,24 @@ func (p *Prog) normaliseParamOrder(all map[*ssa.Function]bool) {
 		}
 	}
 }
+
+// AliasedClosures: functions that play the part of a closure of fn in the reviewed tree (a closure that was turned
+// into a named function; see computeFuncAliases case b).
+func AliasedClosures(fn *ssa.Function) []*ssa.Function {
+	if fn == nil || fn.Prog == nil {
+		return nil
+	}
+	fc := funcCanonOf[fn.Prog]
+	if fc == nil {
+		return nil
+	}
+	prefix := canonString(fn) + "$"
+	var out []*ssa.Function
+	for f, name := range fc.alias {
+		if strings.HasPrefix(name, prefix) && !strings.Contains(name[len(prefix):], "$") && f.Parent() == nil {
+			out = append(out, f)
+		}
+	}
+	sort.Slice(out, func(i, j int) bool { return out[i].Pos() < out[j].Pos() })
+	return out
+}
